@@ -40,6 +40,9 @@ class Prog:
         s += " start=%s" % self.start if self.lazy else " tail=%s" % self.tail
         return s
 
+    def shared_involved(self):
+        return self.source["kind"] in ("shared", "shared_on") or any(st.ret["kind"].startswith("shared") for st in self.steps)
+
     def klass(self, step_id=None):
         """cell class for violation keys: mode / source kind / the step concerned (signature, return kind)"""
         base = "%s/src=%s" % ("lazy" if self.lazy else "eager", self.source["kind"])
@@ -563,6 +566,11 @@ def check_run(p, rec):
         out.append(("tracked-leak", rel, "tracked objects (functor captures, values) alive at quiescence: %d, canary failures: %d" % (rec["live"], rec["bad"])))
     if rec["balance"] != 0:
         out.append(("alloc-balance", rel, "operator new/delete imbalance at quiescence: %d" % rec["balance"]))
+    if not p.shared_involved() and rec.get("copies", 0) != 0:
+        # On a pipeline of unique futures every hand-over of the value is a move; a copy made by the library is a heap
+        # allocation for any heap-owning payload, on top of the one block the step itself may allocate.
+        out.append(("payload-copied", "C20", "the payload was copy-constructed/assigned %d times on a pipeline without any shared "
+                    "future (every copy of a heap-owning value is an extra heap allocation in that step)" % rec["copies"]))
     if rec["mode"] == "base" and rec["allocs"] > ex.steps:
         out.append(("allocs-per-step", "C20", "%d allocations for %d pipeline steps" % (rec["allocs"], ex.steps)))
     return out, ex
